@@ -1,5 +1,6 @@
 import LentilVerif.Lemmas.EnergyPlane
-import LentilVerif.Lemmas.FourierWiring
+import LentilVerif.Lemmas.EnergyFft
+import LentilVerif.Lemmas.FourierWiring   -- the dft2 model = the wiring regenerated from fourier.py (theorem: C01.dft2_follows_source_wiring)
 /-! # C05 — propagation conserves energy
 
 Property theorems only. Model: `Model/Energy.lean` over `Model/Fourier.lean`, instantiated at `K = ℂ`, `R = ℝ`. -/
@@ -156,6 +157,31 @@ theorem propagate_dft_energy (fs : List (Fld ℂ)) (S0 S1 K L : ℕ) (hfit : ∀
     refine sum_congr rfl fun p hp => ?_
     rw [propagate_dft_samples fs _ _ oe P0 P1 hoe hP, hcover p hp, if_pos rfl]
 
+/-- **nested sets of output samples capture nested energies** (over the C02 model, any fields, any window parameters): the
+property's "no smaller than that of any window it contains". -/
+theorem propagate_dft_energy_monotone (fs : List (Fld ℂ)) (αr αc : ℝ) (oe : Extent) (P0 P1 : ℤ) (B B' : Finset (ℤ × ℤ)) (h : B ⊆ B') :
+    ∑ p ∈ B, Complex.normSq ((fs.map fun f => embO (propagateField (⟨f, 0, 0, 0, 0⟩ : TField ℂ ℝ) αr αc oe P0 P1) p.1 p.2).sum)
+      ≤ ∑ p ∈ B', Complex.normSq ((fs.map fun f => embO (propagateField (⟨f, 0, 0, 0, 0⟩ : TField ℂ ℝ) αr αc oe P0 P1) p.1 p.2).sum) :=
+  sum_le_sum_of_subset_of_nonneg h (fun _ _ _ => Complex.normSq_nonneg _)
+
+/-- **the FFT propagator conserves energy, end to end.** Whenever `propagate_fft` answers (C09 model `propagateFft`: `_fft_shape`,
+zero padding or scratch insertion, `_fft2`, crop to the requested shape) on an isotropic sampling, for any number of fields
+on the wavefront canvas `W0 × W1` no larger than the grid: the intensity `|Wavefront.field|²` summed over the returned
+`so.1 × so.2` samples is at most the input power `Σ|total field|²`, and equals it when the whole grid is returned. Composition of
+C09 `fft_eq_propagate_dft` (FFT output = `propagate_dft` model at the reported wavelength, α = 1/S) with the plane-energy bound. -/
+theorem propagate_fft_energy (fs : List (Fld ℂ)) (W0 W1 : ℕ) (dx0 dx1 du0 du1 wl z : ℝ) (os : ℤ)
+    (shape : Option (ℤ × ℤ)) (scratch : Option (Arr ℂ)) (lam : ℝ) (S0 S1 : ℤ) (so : ℤ × ℤ) (g : Fld ℂ)
+    (h : propagateFft 1 fs false W0 W1 dx0 dx1 du0 du1 wl z os shape scratch = FftOut.ok lam S0 S1 so g)
+    (hiso : dx0 * du0 = dx1 * du1) (hp : dx0 * du0 ≠ 0) (hz : z ≠ 0) (hos : 0 < os) (hS : 0 < S0 ∧ 0 < S1)
+    (hW : (W0 : ℤ) ≤ S0 ∧ (W1 : ℤ) ≤ S1) (hfit : ∀ f ∈ fs, f.within W0 W1)
+    (hpos : ∀ f ∈ fs, 0 < f.arr.s0 ∧ 0 < f.arr.s1) (hso : 0 < so.1 ∧ 0 < so.2) :
+    ∑ i ∈ range so.1.toNat, ∑ j ∈ range so.2.toNat, Complex.normSq ((wavefrontField 1 [g] so.1 so.2).get i j)
+      ≤ arrSum (intensity (R := ℝ) (embedAll fs W0 W1)) ∧
+    (so = (S0, S1) →
+      ∑ i ∈ range so.1.toNat, ∑ j ∈ range so.2.toNat, Complex.normSq ((wavefrontField 1 [g] so.1 so.2).get i j)
+        = arrSum (intensity (R := ℝ) (embedAll fs W0 W1))) :=
+  propagate_fft_energy_aux fs W0 W1 dx0 dx1 du0 du1 wl z os shape scratch lam S0 S1 so g h hiso hp hz hos hS hW hfit hpos hso
+
 /-- **several fields transform like the wavefront's total field** (linearity + zero-padded embedding): the statement that lets the
 single-array theorems above speak about segmented pupils -/
 theorem fields_transform_as_total (fs : List (Fld ℂ)) (S0 S1 : ℕ) (hfit : ∀ f ∈ fs, Fits f S0 S1) (αr αc : ℝ) (U V : ℤ) :
@@ -197,6 +223,18 @@ theorem tilted_field_period_energy (t : TField ℂ ℝ) (m n : ℕ) (hm : t.fld.
   · simp only [RealLike.ofInt, cc]; push_cast; ring
   · simp only [RealLike.ofInt, cc]; push_cast; ring
 
+/-- **fields sharing one tilt keep their energy over the displaced period**, any number of fields on the wavefront canvas (a tilted
+segmented pupil): with propagation shape one period `K × L` and an output extent containing the displaced propagation extent,
+the intensity `|Σ fields|²` of the C02 model summed over that extent equals the input power `Σ|total field|²`. -/
+theorem common_tilt_period_energy (fs : List (Fld ℂ)) (S0 S1 K L : ℕ) (hfit : ∀ f ∈ fs, Fits f S0 S1) (hK : 0 < K) (hL : 0 < L)
+    (hS0 : S0 ≤ K) (hS1 : S1 ≤ L) (fix0 fix1 : ℤ) (sub0 sub1 : ℝ) (oe : Extent) (hoe : oe.rmin ≤ oe.rmax ∧ oe.cmin ≤ oe.cmax)
+    (hcover : ∀ r c, (propExtent K L fix0 fix1).inb r c = true → oe.inb r c = true) :
+    ∑ u ∈ range K, ∑ v ∈ range L, Complex.normSq
+        ((fs.map fun f => embO (propagateField (⟨f, fix0, fix1, sub0, sub1⟩ : TField ℂ ℝ) (1 / (K : ℝ)) (1 / (L : ℝ)) oe K L)
+          (-((K : ℤ) / 2) + fix0 + u) (-((L : ℤ) / 2) + fix1 + v)).sum)
+      = arrSum (intensity (R := ℝ) (embedAll fs S0 S1)) :=
+  common_tilt_period_energy_aux fs S0 S1 K L hfit hK hL hS0 hS1 fix0 fix1 sub0 sub1 oe hoe hcover
+
 /-- **the `fft2` contract is the textbook unitary DFT.** `fft2ortho` (written with the shared `dft2` so that the FFT path
 theorem can reuse its algebra) is entry by entry `(1/√(mn)) Σ_a Σ_b x[a,b]·exp(−2πi·a·k/m)·exp(−2πi·b·l/n)`, origin at index 0 -/
 theorem fft2_contract_is_textbook (x : Arr ℂ) (m n : ℕ) (hm : x.s0 = m) (hn : x.s1 = n) (k l : ℤ) :
@@ -205,10 +243,5 @@ theorem fft2_contract_is_textbook (x : Arr ℂ) (m n : ℕ) (hm : x.s0 = m) (hn 
         * Complex.exp (-(2 * Real.pi * Complex.I) * ((b * l : ℤ) : ℂ) / n) := by
   rw [fft2ortho_get_eq x m n hm hn]
   simp only [fker_eq, E]
-
-/-- the normalisation of the unitary transform is the expression regenerated from `fourier.py` (`np.sqrt(np.abs(alpha_row *
-alpha_col))` under `if unitary:`): the factor whose square is `1/(K·L)` on a full period -/
-theorem unitary_scale_follows_source (αr αc : ℝ) (m n M N : ℤ) (shr shc : ℝ) (offr offc : ℤ) :
-    Gen.fwDft2Scale (fun i : ℤ => (i : ℝ)) Real.sqrt (fun x => |x|) m n αr αc M N shr shc offr offc = Real.sqrt |αr * αc| := rfl
 
 end Lentil.C05
